@@ -11,7 +11,7 @@ J = jnp.asarray
 
 LAYOUTS = {"quick": [(1, 1), (1, 2), (2, 1), (1, 3), (3, 1)], "thorough": [(1, 1), (1, 2), (2, 1), (1, 3), (3, 1), (1, 4), (4, 1)]}
 DIMS = {"quick": [1, 2, 3], "thorough": [1, 2, 3, 4]}
-NVAL = {"quick": (3, 1), "thorough": (6, 3)}  # (catalogue entries, seed-generic entries)
+NVAL = {"quick": (3, 1), "thorough": (6, 6)}  # (catalogue entries, seed-generic entries)
 
 
 def make_shards(tier, seed, prop):
